@@ -14,6 +14,7 @@ mod c10;
 mod c15;
 mod targets;
 mod c02;
+mod nuts;
 
 use util::Out;
 
@@ -43,6 +44,8 @@ fn main() {
         "C10" => c10::run(&mut out),
         "C15" => c15::run(&mut out),
         "C02" => c02::run(&mut out),
+        "C03" => nuts::run_c03(&mut out),
+        "C04" => nuts::run_c04(&mut out),
         _ => {
             eprintln!("unknown property {prop}");
             std::process::exit(2);
